@@ -15,7 +15,7 @@ REQUIRED = ['core/wl/message.py:Message.resolve', 'core/wl/object.py:ObjectBase.
 
 def plan(tier, seed):
     if tier == 'quick':
-        return [{'n': 9, 'len': [60, 600]} for _ in range(16)]
+        return [{'n': 30, 'len': [60, 600]} for _ in range(16)]
     return [{'n': 150, 'len': [60, 2000]} for _ in range(64)]
 
 
